@@ -65,4 +65,11 @@ def msgLang (text : List Text × Lang) (atts qrs : List Text × Lang) : Option L
 def caseArgs (base localized : List Text) : List Text :=
   if localized.length ≠ base.length then base else localized
 
+/-- `SayMsgAction.Execute`: the text and the recording are localized independently; the message's
+language is the one the **text** was taken from.  (spoken text, recording, language) -/
+def sayMsg (c : Cfg) (trText trAudio : Lang → Option (List Text)) (text audio : Text) : Text × Text × Lang :=
+  let t := getText c trText [text]
+  let a := getText c trAudio [audio]
+  (t.1.headD [], a.1.headD [], t.2)
+
 end GoflowModel.Localize
